@@ -273,12 +273,15 @@ pub fn real_format(req: &FmtReq) -> FmtOutcome {
         None => req.device_bytes,
     };
     let pad = 64 * 1024u64;
-    let store = Store::sparse(vol_bytes + pad, 0);
+    // two media out of three hold stale non-zero bytes everywhere (a used card): whatever the formatter does not
+    // write keeps them, so a table copy, root area or FS-info field it forgets to initialise is visible
+    let fill: u8 = if (vol_bytes / 512 + req.bps as u64 / 512 + req.fats.unwrap_or(0) as u64) % 3 == 0 { 0 } else { crate::vol::GARBAGE };
+    let store = Store::sparse(vol_bytes + pad, fill);
     let dev = MemDev::new(store);
     // device size as seen by the library when total_sectors is None: without the pad
     if req.total_sectors.is_none() {
         dev.with(|d| {
-            d.store = Store::sparse(vol_bytes, 0);
+            d.store = Store::sparse(vol_bytes, fill);
         });
     }
     let opts = req.options();
